@@ -5,7 +5,7 @@ import json
 import core
 import scen_proc
 
-PROPS = ['Props/C12.lean', 'Legacy/ProcOutcome.lean']
+PROPS = ['Props/C12.lean', 'Legacy/ProcOutcome.lean', 'Legacy/ExitRace.lean']
 
 
 def keyfn(case, res, m):
@@ -47,7 +47,7 @@ def run(chk):
     results = scen_proc.recheck_hangs(chk, 'scen_proc', results, scen_proc.case_class)
     chk.account(scen_proc, results, 'E4-processes')
     chk.collect_monitors(results, {'C12'}, keyfn)
-    chk.validate('procoutcome', scen_proc, results)
+    scen_proc.validate_parallel(chk, 'procoutcome', scen_proc, results, nproc=4)
     if chk.corr_breaks and not chk.violations:
         # the model disagrees with the code but no monitor fired: look around the disagreeing cases
         more = []
